@@ -69,3 +69,19 @@ func init() {
 		Rule: flowRule + "cancellation injected before the run (cancel / expired deadline), synchronously inside one callback invocation on the executed path, or by a deadline strictly inside a callback's simulated sleep or a retry wait; non-trivial = at least three callback invocations and at least one fault fired",
 		Must: []string{"run_cut_short", "cancel_landed_in_wait"}}
 }
+
+func init() {
+	props["C18"] = &propCfg{Parts: []part{{Engine: "flowsim", Quick: 40000, Thorough: 800000}},
+		Rule: flowRule + "every node kind (struct, plain, function nodes with and without a post function, flows used as nodes, batch nodes with 0..3 items and concurrency 0..2) x post action {empty, default, custom}, run directly and as a routed step whose default connection leads to a witness node; non-trivial = at least two node visits"}
+}
+
+func init() {
+	props["C17"] = &propCfg{Parts: []part{{Engine: "flowsim", Quick: 40000, Thorough: 1000000}},
+		Rule: flowRule + "function-style nodes in all 8 Result/Any style mixes, option and builder construction, payloads nil/int/float/string/map/slice/pointer/struct and error results, as single runs, inside flows and as batch exec functions, under retries and fallback; identity of pointers, maps and slices is checked; non-trivial = at least three callback invocations",
+		Must: []string{"fallback_after_retries"}}
+}
+
+func init() {
+	props["C19"] = &propCfg{Parts: []part{{Engine: "flowsim", Quick: 30000, Thorough: 800000}},
+		Rule: flowRule + "a function, struct or batch node configured by a sequence of up to 6 settings (max retries, wait, batch concurrency, error handling; option or builder form; functions attached by option or by builder) and probed by a run with failing attempts, waits and concurrent items; the same seed and schedule are then replayed on the canonically configured twin (constructor options only, last values) and the two event logs must be identical; non-trivial = at least three callback invocations"}
+}
